@@ -99,6 +99,10 @@ Definition combine' (a b : op) : op :=
 (* operator* *)
 Definition op_mul (a b : op) : op := wrap (combine' a b).
 
+(* operator* as callable from C++: combine may throw *)
+Definition op_mul_checked (a b : op) : option op :=
+  match combine a b with Some c => Some (wrap c) | None => None end.
+
 (* Op::inverse; None when det = 0 (the code throws) *)
 Definition inverse (a : op) : option op :=
   let detr := det_rot (rot a) in
